@@ -386,10 +386,13 @@ func TestWitness_C20_NextAfterClose(t *testing.T) {
 	}
 }
 
-// C20: after a Next that panicked inside the archetype walk (here: an unsafe query with a relation
-// target for a component one of the archetypes lacks) the query has no current table any more:
-// Entity() panics in the default build exactly as it does with ark_debug (it used to return the
-// last entity of the previous table in the default build only).
+// C20: after a Next that did not yield an entity - because the walk is over or because it panicked
+// inside the archetype walk - the query has no current table any more: Entity() panics in the
+// default build exactly as it does with ark_debug (after a Next that panicked mid-walk it used to
+// return the last entity of the previous table in the default build only). The unsafe query below
+// names a relation target for a component one of the archetypes lacks; until 69d7fda that made Next
+// panic mid-walk, since then such an archetype matches nothing and Next just finishes the query.
+// The witness accepts both and pins what follows.
 func TestWitness_C20_EntityAfterFailedNext(t *testing.T) {
 	w := ecs.NewWorld(1, 1)
 	idA := ecs.ComponentID[compA](w)
@@ -409,11 +412,21 @@ func TestWitness_C20_EntityAfterFailedNext(t *testing.T) {
 		t.Fatal("expected the second plain entity")
 	}
 	// archetype {R}: no table for target b; archetype {S}: the relation names a component it lacks
-	mustPanic(t, "Next reaching the archetype that lacks the relation component", func() { q.Next() })
-	mustPanic(t, "Entity after the failed Next", func() { _ = q.Entity() })
-	if q.Next() {
-		t.Fatal("Next after the failed Next must finish the query")
+	more := false
+	func() {
+		defer func() { _ = recover() }()
+		more = q.Next()
+	}()
+	if more {
+		t.Fatalf("Next yields %v, which has no relation (R, %v)", q.Entity(), b)
 	}
+	mustPanic(t, "Entity after the failed or final Next", func() { _ = q.Entity() })
+	func() {
+		defer func() { _ = recover() }()
+		if q.Next() {
+			t.Fatal("Next after the failed or final Next yields an entity")
+		}
+	}()
 	if w.IsLocked() {
 		t.Fatal("world locked")
 	}
@@ -615,5 +628,60 @@ func TestWitness_C16_ResetAfterRejectedCreation(t *testing.T) {
 	}
 	if n != 1 {
 		t.Fatalf("query after Reset lists %d entities, want 1", n)
+	}
+}
+
+// C16 (and C03): a query that names a relation target for a component its filter does not require
+// gives the same answer in a world that was used and Reset and in a brand-new world. Before the
+// repair the answer depended on the archetypes an earlier history had left behind: an archetype
+// {A, R2} (tables freed by Reset) matched the filter {A}, had relations, did not have R1, and
+// GetTables / Matches indexed with the missing component and panicked, leaving the world locked.
+func TestWitness_C16_QueryRelationOnForeignComponent(t *testing.T) {
+	used := ecs.NewWorld(2, 1)
+	idA := ecs.ComponentID[compA](used)
+	idR1 := ecs.ComponentID[rel1](used)
+	idR2 := ecs.ComponentID[rel2](used)
+	tg := used.NewEntity()
+	used.Unsafe().NewEntityRel([]ecs.ID{idA, idR2}, ecs.RelID(idR2, tg)) // leaves an archetype {A, R2}
+	used.Reset()
+	fresh := ecs.NewWorld(2, 1)
+	ecs.ComponentID[compA](fresh)
+	ecs.ComponentID[rel1](fresh)
+	ecs.ComponentID[rel2](fresh)
+	var counts [2]int
+	var lists [2][]ecs.Entity
+	for i, w := range []*ecs.World{used, fresh} {
+		u := w.Unsafe()
+		x := w.NewEntity()
+		y := w.NewEntity()
+		u.NewEntityRel([]ecs.ID{idA, idR1}, ecs.RelID(idR1, x))
+		u.NewEntityRel([]ecs.ID{idA, idR1}, ecs.RelID(idR1, y))
+		u.NewEntityRel([]ecs.ID{idA, idR2}, ecs.RelID(idR2, x)) // has A, has relations, lacks R1
+		mustNotPanic(t, "query with a relation on a component outside the filter", func() {
+			q := ecs.NewUnsafeFilter(w, idA).Query(ecs.RelID(idR1, x))
+			counts[i] = q.Count()
+			for q.Next() {
+				lists[i] = append(lists[i], q.Entity())
+			}
+		})
+		if w.IsLocked() {
+			t.Fatalf("world %d left locked", i)
+		}
+		if counts[i] != len(lists[i]) {
+			t.Fatalf("world %d: Count %d, iteration %d", i, counts[i], len(lists[i]))
+		}
+		for _, e := range lists[i] {
+			if !u.Has(e, idR1) || u.GetRelation(e, idR1) != x {
+				t.Fatalf("world %d: query for (R1, %v) lists %v", i, x, e)
+			}
+		}
+	}
+	if counts[0] != counts[1] || counts[0] != 1 {
+		t.Fatalf("reset world counts %d, new world counts %d, want 1 and 1", counts[0], counts[1])
+	}
+	for k := range lists[0] {
+		if lists[0][k] != lists[1][k] {
+			t.Fatalf("reset world lists %v, new world lists %v", lists[0], lists[1])
+		}
 	}
 }
